@@ -6,6 +6,7 @@ DIR=$(readlink -f "$1"); shift
 WT=$(mktemp -d "${TMPDIR:-/tmp}/verif-confirm-XXXXXX")
 git -C /repo worktree add -q --detach "$WT" HEAD || exit 3
 trap 'git -C /repo worktree remove --force "$WT" >/dev/null 2>&1; rm -rf "$WT"' EXIT
+[ -f /repo/spsdk/__version__.py ] && cp /repo/spsdk/__version__.py "$WT/spsdk/__version__.py"
 DEMO=$DIR/demo.py; [ -f "$DEMO" ] || DEMO=$DIR/demo.sh
 rundemo() { (cd "$WT" && if [[ $DEMO == *.py ]]; then PYTHONPATH="$WT" timeout 600 /venv/bin/python "$DEMO" "$WT"; else PYTHONPATH="$WT" timeout 600 bash "$DEMO" "$WT"; fi) >"$WT/.demo.out" 2>&1; echo $?; }
 A=$(rundemo); echo "demo without patch: rc=$A ($(tail -1 "$WT/.demo.out" | cut -c1-100))"
